@@ -8,17 +8,17 @@ from engine import RULES
 
 # property -> (what the static rules decide, undecided remainder / trusted base)
 NOTES = {
- "C01": ("start sites lie under the readiness predicate; the predicate's four necessary atoms; both pending sets initialised from the declared dependencies; pending-set bookkeeping (remove only on Ok, re-insert on Invalidated); every Ok construction is one of three guarded idioms; flag discipline; X.output producers are scheduled as dependencies",
+ "C01": ("start sites lie under the readiness predicate; the predicate's four necessary atoms; both pending sets initialised from the declared dependencies; pending-set bookkeeping (remove only on Ok, re-insert on Invalidated); every Ok construction is one of three guarded idioms; flag discipline (incl. the start marker clearing `executed`); X.output producers are scheduled as dependencies",
          "does not decide the behaviour over all graphs and interleavings, FIFO delivery (async-channel is trusted), or that the guard is re-evaluated after every message"),
  "C02": ("Skipped only under a true comparison; no record => no skip; input AND output sides compared; `both`/`all` combinators; cardinality + per-file (recorded, mtime or hash) atoms; whole-file hash loop; command success + equality; same lister for recording and comparison",
          "mtime granularity, hash collisions, listing/hashing races and all edit histories are not decided"),
- "C03": ("record saved on every completed path with inputs; None snapshot only without inputs; command-output key derives from (dir, cmd) in writer and reader; sufficient true-paths by mtime alone and by hash alone; who-may-delete-state table; state path purity",
+ "C03": ("record saved on every completed path with inputs; None snapshot only without inputs; command-output key derives from (dir, cmd) in writer and reader; sufficient true-paths by mtime alone and by hash alone; who-may-delete-state table; state path purity; an undeclared side compares equal; cardinality compared over de-duplicated collections",
          "stable mtimes, deterministic declared commands and every project layout are not decided"),
- "C04": ("late requesters always answered (ACK-LATE), foreign-kind replies, relay forwards every message with an awaited non-lossy send, no lossy send on protocol channels, bounded-channel wait-for graph acyclic, no dropped futures, complete fan-out loops, root bookkeeping, dependencies requested for both kinds",
+ "C04": ("late requesters always answered (ACK-LATE), foreign-kind replies, relay forwards every message with an awaited non-lossy send, no lossy send on protocol channels, bounded-channel wait-for graph acyclic, no dropped futures, complete fan-out loops, root bookkeeping, dependencies requested for both kinds under a first-requester test of the handler's own kind, actor loops left only on termination",
          "termination itself (liveness over all interleavings), executor fairness and wait-for cycles inside libraries are not decided"),
- "C05": ("old record deleted (`?`-checked) before the script is first polled; save only in the Completed arm; Completed only under a true ExitStatus::success(); corrupt file => deleted and None; size-bounded bincode decode; no panic site on the state path",
+ "C05": ("old record deleted (`?`-checked) before the script is first polled; save only in the Completed arm; Completed only under a true ExitStatus::success(); corrupt file => deleted and None; size-bounded bincode decode; the removal error reaches the delete function's result; no panic site on the state path",
          "byte-level atomicity of the write is argued (old record gone before the script, fixed-shape bincode values are prefix-free), not analysed; signal timing is not decided"),
- "C06": ("file-change arm -> notifier on every path; dependency invalidation propagates (per actor kind); notifier sets flags and tells requesters; OK idiom I1 (no stale ack); in-flight marker reset; watch relay total; missing path tolerated; recursive watch; watcher retained; input snapshot taken before the script",
+ "C06": ("file-change arm -> notifier on every path; dependency invalidation propagates (per actor kind); notifier sets flags and tells requesters; OK idiom I1 (no stale ack); in-flight marker reset; watch relay total; missing path tolerated; recursive watch; watcher retained (over every non-empty group of paths, each path with its own resource's filter); input accessor answers for builds and services; input snapshot taken before the script",
          "convergence itself, inotify latency/coalescing and editors' rename-replace are not decided"),
  "C07": ("non-zero status => Err; spawn failure propagated; failure branch reports and never acknowledges; one-shot relay returns the error, watch relay continues; shutdown always precedes the `?` on the engine result in main",
          "that no dependent can start through another route follows from C01/C04 rules and is not re-proved; interleavings are not enumerated"),
@@ -26,17 +26,17 @@ NOTES = {
          "exact-once as a count over all schedules needs liveness, which is not decided"),
  "C09": ("resolver skeleton: shared targets resolved once; recursion bounded by a consuming removal or an ancestor test; full dependency list visited; `.output` only of builds; unknown names are errors; resolve-before-effects in main and effect-free validation",
          "that the DFS computes exactly the closure on every graph (algorithmic correctness) is not decided"),
- "C10": ("shutdown on every path of main, to all handles, joined; every actor leaves its loop on termination; every process wait is raced against cancellation or preceded by kill; service stopped on every exit path; spawned shells owned; single in-flight pre-emptible build; signal wired; no sync blocking; wait-for acyclicity",
+ "C10": ("shutdown on every path of main, to all handles, joined; every actor leaves its loop on termination; every process wait is raced against cancellation or preceded by kill; service stopped on every exit path; spawned shells owned; single in-flight pre-emptible build; signal wired; no sync blocking (incl. nested block_on in closures); the relay owns the receiver or a stored handle is dropped before the termination messages; wait-for acyclicity",
          "the numerical bound on exit latency, cmd_stdout helper processes, grandchildren and OS signal delivery are not decided"),
- "C11": ("provenance of `actual` per idiom; keep-alive set filled only under Ok{Service, actual}; final wait guarded by that set; stop awaited before spawn; single process slot",
+ "C11": ("provenance of `actual` per idiom; keep-alive set filled only under Ok{Service, actual}; final wait guarded by that set and reached after every successful run with a requested service; stop awaited before spawn; single process slot",
          "service supervision (a service exiting by itself) and timing are not decided"),
- "C12": ("closed table of deletion sites in four roles; deleted paths derive from outputs only; extension filter respected; is_file/is_dir guards; everything destructive under --clean with the right scope; work-dir path; links not followed",
+ "C12": ("closed table of deletion sites in four roles; deleted paths derive from outputs only; extension filter respected; is_file/is_dir guards; everything destructive under --clean with the right scope, and each part of --clean present; work-dir path; links not followed",
          "symlink semantics of remove_dir_all/is_file and overlapping declarations are not decided"),
  "C13": ("producer outputs appended (files and commands) to the consumer input for every X.output; resources bound to the declaring project's directory; key injectivity; watcher and lister range over the whole input",
          "re-run on every edit history is not decided"),
  "C14": ("deny_unknown_fields visible as absence of `__ignore` in every derive-generated field enum of the schema; discriminating keys required; name checks; import name checks and recursion cut; project-name uniqueness test; frozen table of justified panic sites on the configuration path; validate-before-effects",
          "totality of serde_yaml/regex/clap on all byte strings is trusted, not decided"),
- "C15": ("one lister; lister and watcher share one extension predicate and one work-dir constant; predicate = no filter or file-name suffix; regular files only, work dir pruned, walk errors dropped; extension normalisation; no panic site",
+ "C15": ("one lister; lister and watcher share one extension predicate and one work-dir constant; predicate = no filter or file-name suffix (lossy, never fallible, name conversion); each path keeps its own resource's filter; regular files only, work dir pruned (an unreadable name is not the work dir), walk errors dropped; extension normalisation; no panic site",
          "string semantics on all names and symlink classification are not decided"),
  "C16": ("callback filter atoms (not temporary, not in work dir, matches extensions); notify only when relevant; callback panic-free and non-blocking; temporaries `*~`, `.*.swp`, `.*.swx` recognised; own writes confined to the work dir",
          "which events inotify delivers, rename sequences and later-created paths are not decided"),
@@ -44,7 +44,7 @@ NOTES = {
          "actual overlap in time, executor thread count and fairness are not decided"),
  "C18": ("state path is a pure function of (declaring project dir, target id); state module touches only such paths; project dirs canonicalised; resources bound to the declarer; derived Eq/Hash over both id fields",
          "sequences of invocations and aliasing through hard links / bind mounts are not decided"),
- "C19": ("bare -> current project, qualified -> first segment, more segments -> error; current project is the root name in main and the declaring target's project inside files; offered names = qualified ids + bare root names; one identity for both spellings",
+ "C19": ("bare -> current project, qualified -> first segment, more segments -> error; current project is the root name in main and the declaring target's project inside files; offered names = qualified ids + bare root names; one identity for both spellings (also in the cycle test); name-resolving wrappers summarised and judged where they are used",
          "clap's matching of possible values is trusted"),
  "C20": ("aggregate requests dependencies with the incoming kind; forwards Ok under an empty pending set with the incoming kind; answers late requesters at once; `actual` = some dependency actual; forwards Invalidated",
          "the equivalence of two invocations (a relation between runs) is not decided"),
@@ -83,7 +83,7 @@ m = {
         {"name": "selfcheck", "path": "/verif/variants", "serves_properties": [p["id"] for p in props], "kind_free_text": "seeded breaking variants, benign twins and positive controls applied to a scratch copy of the current /repo"},
     ],
     "checks": checks,
-    "notes": "All 20 properties are claimed at level `other` (structural necessary conditions decided statically); none is decided behaviourally. Seven genuine defects (D1-D7) found by these rules were repaired in /repo with `fix:` commits (see known_findings.txt); the old code of each is kept as a seeded variant that must keep firing.",
+    "notes": "All 20 properties are claimed at level `other` (structural necessary conditions decided statically); none is decided behaviourally. Eight genuine defects (D1-D8) found by these rules were repaired in /repo with `fix:` commits (see known_findings.txt); the old code of each is kept as a seeded variant that must keep firing. Self-validation corpora: variants/ (seeded variants, benign twins, positive controls), seeded/ (80 independent sub-agent mutants, all reported by the property they break; 40 of them with a behaviour-preserving twin, 30 silent and 10 listed in twins_known.txt), benign/ (20 independent refactorings, all silent); tools/run_suite.py runs them all.",
     "not_applicable": [],
 }
 json.dump(m, open(os.path.join(VERIF, "MANIFEST.json"), "w"), indent=1)
